@@ -28,9 +28,9 @@ fn escape_char(c: char) -> Value {
 /// must be encoded using Excel's `_xXXXX_` convention.
 fn needs_xlsx_escape(c: char) -> bool {
     let cp = c as u32;
-    // XML 1.0 forbidden: 0x00-0x08, 0x0B, 0x0C, 0x0E-0x1F
+    // XML 1.0 forbidden: 0x00-0x08, 0x0B, 0x0C, 0x0E-0x1F, 0xFFFE, 0xFFFF
     // (0x09=TAB, 0x0A=LF, 0x0D=CR are valid in XML and handled above)
-    matches!(cp, 0x00..=0x08 | 0x0B | 0x0C | 0x0E..=0x1F)
+    matches!(cp, 0x00..=0x08 | 0x0B | 0x0C | 0x0E..=0x1F | 0xFFFE | 0xFFFF)
 }
 
 /// Returns true if `s` starts with `_xHHHH` (4 hex digits) followed by a character that
@@ -50,8 +50,8 @@ fn starts_xlsx_escape_pattern(s: &str) -> bool {
 
 /// Performs escaping of common XML characters inside an attribute value.
 ///
-/// Also encodes control characters (U+0001-U+0008, U+000B, U+000C, U+000E-U+001F)
-/// using Excel's `_xXXXX_` convention so the output is valid XML 1.0.
+/// Also encodes control characters (U+0000-U+0008, U+000B, U+000C, U+000E-U+001F) and the
+/// noncharacters U+FFFE and U+FFFF using Excel's `_xXXXX_` convention so the output is valid XML 1.0.
 ///
 /// Literal underscores that begin a `_xHHHH_` look-alike are written as `_x005F_`
 /// so the decoder cannot misread them as escape sequences.
@@ -158,6 +158,14 @@ mod tests {
         assert_eq!(escape_xml("_x0041\x01").as_ref(), "_x005F_x0041_x0001_");
         assert_eq!(roundtrip("_x0041\x01"), "_x0041\x01");
         assert_eq!(roundtrip("_x0041\x01_"), "_x0041\x01_");
+    }
+
+    #[test]
+    fn test_noncharacters_roundtrip() {
+        // U+FFFE and U+FFFF are not XML 1.0 characters either
+        assert_eq!(escape_xml("\u{FFFE}\u{FFFF}").as_ref(), "_xFFFE__xFFFF_");
+        assert_eq!(roundtrip("a\u{FFFF}b"), "a\u{FFFF}b");
+        assert_eq!(roundtrip("_x0041\u{FFFE}"), "_x0041\u{FFFE}");
     }
 
     #[test]
